@@ -1,6 +1,61 @@
-//! Component `job` (see /verif/FRAMEWORK.md).
+//! Component `job`: the job view of a simulated cluster run (see sim.rs / world.rs).
+//! ops = client requests + tako callbacks as observed on the real code; outs = events, responses,
+//! ids handed to the core, job snapshot.
+use crate::sim::Sim;
+use crate::util::{GenArgs, Trace};
 
-pub fn main(mode: &str, _args: &[String]) {
-    eprintln!("component job: mode {mode} not implemented yet");
-    std::process::exit(2);
+pub fn run_case(tr: &mut Trace, idx: u64, subseed: u64, steps: u32) {
+    run_case_log(tr, idx, subseed, steps, false)
+}
+
+pub fn run_case_log(tr: &mut Trace, idx: u64, subseed: u64, steps: u32, log: bool) {
+    tr.case(idx, subseed, &format!("job steps={steps}"));
+    let mut sim = Sim::new(subseed);
+    for _ in 0..steps {
+        if sim.panicked.is_some() {
+            break;
+        }
+        sim.step();
+    }
+    if sim.panicked.is_none() {
+        sim.drain(60);
+    }
+    if log {
+        for l in &sim.log {
+            tr.line(&format!("# {l}"));
+        }
+        if let Some(p) = &sim.panicked {
+            tr.line(&format!("# PANIC {p}"));
+        }
+    } else {
+        for l in &sim.job.lines {
+            tr.line(l);
+        }
+    }
+    tr.end();
+}
+
+pub fn main(mode: &str, args: &[String]) {
+    let a = GenArgs::parse(args);
+    let mut tr = Trace::new();
+    match mode {
+        "gen" => {
+            let steps: u32 = a.value("--steps").map(|s| s.parse().unwrap()).unwrap_or(if a.thorough { 120 } else { 60 });
+            for k in 0..a.cases {
+                let subseed = a.case_seed(k);
+                run_case(&mut tr, a.shard * 1_000_000 + k, subseed, steps);
+            }
+        }
+        "case" => {
+            // hqv job case <subseed> <steps>
+            let subseed: u64 = args[0].parse().unwrap();
+            let steps: u32 = args[1].parse().unwrap();
+            run_case_log(&mut tr, 0, subseed, steps, args.iter().any(|a| a == "--log"));
+        }
+        _ => {
+            eprintln!("component job: unknown mode {mode}");
+            std::process::exit(2);
+        }
+    }
+    tr.flush();
 }
